@@ -459,7 +459,7 @@ def hashseed_sessions(ctx, i):
     outs = []
     for seed, kill in ((str(1 + i), 2), (str(101 + 7 * i), -1)):
         env = dict(os.environ, PYTHONHASHSEED=seed, PYTHONPATH=pan.REPO, PANOPTICA_CITATION_REMINDER="false")
-        p = subprocess.run([harness.PY, "-B", script, path, json.dumps(subjects), str(kill)], env=env, capture_output=True, text=True, timeout=300, cwd=d)
+        p = subprocess.run([harness.PY, "-B"] + harness.own_flags() + [script, path, json.dumps(subjects), str(kill)], env=env, capture_output=True, text=True, timeout=300, cwd=d)
         outs.append((p.returncode, p.stderr[-600:]))
     det = {"subjects": subjects, "hash_seeds": [1 + i, 101 + 7 * i], "exit": [o[0] for o in outs]}
     feats = {"variant": "restart_in_new_interpreter_with_other_hash_seed"}
@@ -480,7 +480,7 @@ def hashseed_sessions(ctx, i):
     else:
         # values of the rows written before and after the restart line up under the same header
         st_env = dict(os.environ, PYTHONHASHSEED="0", PYTHONPATH=pan.REPO)
-        chk = subprocess.run([harness.PY, "-B", "-c", "import sys,json;from panoptica import Panoptica_Statistic as S;s=S.from_file(sys.argv[1]);print(json.dumps({n:{g:s.get_one_subject(n)[g]['num_ref_instances'] for g in s.groupnames} for n in s.subjectnames}))", path],
+        chk = subprocess.run([harness.PY, "-B"] + harness.own_flags() + ["-c", "import sys,json;from panoptica import Panoptica_Statistic as S;s=S.from_file(sys.argv[1]);print(json.dumps({n:{g:s.get_one_subject(n)[g]['num_ref_instances'] for g in s.groupnames} for n in s.subjectnames}))", path],
                              env=st_env, capture_output=True, text=True, timeout=300)
         try:
             vals = json.loads(chk.stdout.strip().splitlines()[-1])
